@@ -921,7 +921,8 @@ type pushClientAction struct {
 }
 
 type changePermissionsAction struct {
-	kind string
+	group string
+	kind  string
 }
 
 type permissionsChangedAction struct{}
@@ -1223,6 +1224,11 @@ func handleAction(c *webClient, a any) error {
 			}
 		}
 	case changePermissionsAction:
+		// we may have left the group, or joined another one, since
+		// the action was queued
+		if c.group == nil || c.group.Name() != a.group {
+			return nil
+		}
 		switch a.kind {
 		case "op":
 			c.permissions = addnew("op", c.permissions)
@@ -1916,7 +1922,7 @@ func handleClientMessage(c *webClient, m clientMessage) error {
 					"this is not a real user",
 				))
 			}
-			target.action(changePermissionsAction{m.Kind})
+			target.action(changePermissionsAction{g.Name(), m.Kind})
 		case "identify":
 			if !slices.Contains(c.permissions, "op") {
 				return c.error(group.UserError("not authorised"))
